@@ -34,3 +34,38 @@ Proof.
     eapply run_from_spec_repaired; eassumption.
   - eapply run_from_spec_repaired; eassumption.
 Qed.
+
+From CG Require Import Proofs.LangBridge Proofs.BashMeaningTop.
+
+(** Layer (b): the leaves are literals, external commands and undefined nonterminals (no
+    within-word expressions).  [Henv]: the two environments describe the same commands. *)
+Theorem bash_meaning_toplevel :
+  forall pick fuel v c om os nd a (benv : BashSem.env) (en : Meaning.env) ws p,
+    toplevel_tree (v_expr v) = true -> alts_nonempty (v_expr v) = true ->
+    compile_valid pick fuel v = Ok c ->
+    all_tables Bash c om os = Ok (nd, a) -> NoDup om -> valid_literal_order (c_main c) om = true ->
+    C01_domain (v_expr v) = true ->
+    BashSem.e_ignore_case benv = false -> BashSem.e_wordbreaks benv = Meaning.e_wordbreaks en ->
+    breaks_ok (BashSem.e_wordbreaks benv) = true -> plain p = true -> printable_str p = true ->
+    (forall cm cid, Tables.index_of cm (a_commands a) = Some cid ->
+                    spec_candidates (cmd_output benv cid) = candidates en cm) ->
+    ambiguous_run en (start (v_expr v)) ws = false ->
+    match complete (v_expr v) en ws p with
+    | None => exists log, run_from Repaired (d_start (c_main c)) a benv ws p = Ok (mkresult 1 [] log)
+    | Some (req, al) =>
+        exists reply log, run_from Repaired (d_start (c_main c)) a benv ws p = Ok (mkresult 0 reply log)
+                          /\ (forall x, In x reply <-> In x req) /\ (forall x, In x al <-> In x req)
+    end.
+Proof.
+  intros pick fuel v c om os nd a benv en ws p Htop Hne Hc Hall Hord Hvalid Hdom Hic Hwb Hbok Hplain Hprint Henv Hamb.
+  destruct (compiled_facts pick fuel v c Hne Hc) as [HL [Hwf [Hinp Htrim]]].
+  assert (Hstrip : forall ms, (forall m, In m ms -> String.prefix p m = true) ->
+                              strip_reply benv p ms = Ok (map (Meaning.strip (Meaning.e_wordbreaks en) p) ms)).
+  { intros ms Hms. rewrite <- Hwb. apply strip_reply_plain; assumption. }
+  pose proof (spec_run_meaning_top c (v_expr v) om os nd a benv en p Htop Hne HL Hwf Hinp Htrim Hall Hord Hvalid Hdom Hstrip Henv ws Hamb) as H.
+  pose proof (tables_subword_free_top c (v_expr v) om os nd a Htop Hne HL Hwf Hinp Htrim Hall) as Hfree.
+  destruct (complete (v_expr v) en ws p) as [[req al] |].
+  - destruct H as [reply [log [esc [Hr Hsets]]]]. exists reply, log. split; [| exact Hsets].
+    eapply run_from_spec_repaired; eassumption.
+  - destruct H as [log [esc Hr]]. exists log. eapply run_from_spec_repaired; eassumption.
+Qed.
